@@ -43,9 +43,11 @@ def make_repo_class(R, C, E, U):
             key = U.normalize_project_name(req.project_name)
             self.log.append(key)
             out = []
-            for (cname, ver, reqs, readable) in self.u.get(key, []):
+            for cand in self.u.get(key, []):
+                cname, ver, reqs, readable = cand[:4]
+                sdist = bool(cand[4]) if len(cand) > 4 else False
                 c = R.Candidate(cname, None, U.parse_version(ver), None, None, "any", None,
-                                R.DistributionType.WHEEL)
+                                R.DistributionType.SDIST if sdist else R.DistributionType.WHEEL)
                 c._mem = (cname, ver, reqs, readable)
                 out.append(c)
             return out
@@ -131,7 +133,7 @@ def gen_case(rng, alphabet: List[str], mode: Optional[str] = None) -> Dict[str, 
             cname = rng.choice(SPELL[p])
             if rng.random() < 0.02:
                 cname = rng.choice(NAMES)  # a file listed under the wrong project
-            cands.append((cname, v, reqs, rng.random() > 0.05))
+            cands.append((cname, v, reqs, rng.random() > 0.05, rng.random() < 0.3))
         rng.shuffle(cands)
         universe[p] = cands
     targets = projs + (["zz"] if rng.random() < 0.03 else [])
@@ -153,10 +155,17 @@ def gen_case(rng, alphabet: List[str], mode: Optional[str] = None) -> Dict[str, 
             cons.append(("pins2.txt", [q + "==" + rng.choice(versions[q])]))
     elif r < 0.33:
         cons = []
+    elif r < 0.42:
+        # mixed: a fully pinned file and a file with ranges, in either order (all_pinned must see every file)
+        q = rng.choice(projs)
+        pinned = ("pins.txt", [rng.choice(SPELL[q]) + "==" + rng.choice(versions[q])])
+        ranged = ("ranges.txt", [gen_req(rng, alphabet, projs, 0.05, 0.0, versions, 0.1) for _ in range(rng.choice([1, 2]))])
+        cons = [pinned, ranged] if rng.random() < 0.5 else [ranged, pinned]
     return {
         "mode": mode, "universe": universe, "inputs": inputs, "constraints": cons,
         "remove_constraints": rng.random() < 0.2, "allow_pre": rng.random() < 0.15,
         "max_downgrade": rng.choice([None, None, None, None, None, 0, 1, 2]),
+        "only_binary": rng.choice([None, None, None, ":all:", rng.sample(projs, rng.choice([1, min(2, len(projs))]))]),
     }
 
 
@@ -172,8 +181,8 @@ def all_markers(case: Dict[str, Any], U) -> List[str]:
     layers = [case["universe"]] + [l["universe"] for l in case.get("stack") or []]
     for uni in layers:
         for cands in uni.values():
-            for (_, _, reqs, _) in cands:
-                add(reqs)
+            for cand in cands:
+                add(cand[2])
     for (_, reqs) in case["inputs"]:
         add(reqs)
     for (_, reqs) in case["constraints"] or []:
@@ -190,22 +199,21 @@ def universe_tokens(universe: Dict[str, Any], C, U) -> List[str]:
     toks = [str(len(universe))]
     for key, cands in universe.items():
         toks += [hx(U.normalize_project_name(key)), str(len(cands))]
-        for (cname, ver, reqs, readable) in cands:
+        for cand in cands:
+            cname, ver, reqs, readable = cand[:4]
+            sdist = bool(cand[4]) if len(cand) > 4 else False
             d = C.DistInfo(cname, U.parse_version(ver), [U.parse_requirement(r) for r in reqs])
-            toks += [hx(cname), "1" if readable else "0"] + graphenc.dist_tokens(d)
+            toks += [hx(cname), "1" if readable else "0", "1" if sdist else "0"] + graphenc.dist_tokens(d)
     return toks
 
 
 def case_line(case: Dict[str, Any], alphabet, xorder, C, U) -> str:
-    stack = case.get("stack")
-    toks = ["S" if stack else "P", str(FUEL)] + graphenc.env_tokens(all_markers(case, U), alphabet, xorder)
-    if stack:
-        toks.append(str(len(stack)))
-        for layer in stack:
-            toks.append("1" if layer["allow_pre"] else "0")
-            toks += universe_tokens(layer["universe"], C, U)
-    else:
-        toks += universe_tokens(case["universe"], C, U)
+    stack = case.get("stack") or [{"universe": case["universe"], "allow_pre": case["allow_pre"]}]
+    toks = ["S", str(FUEL)] + graphenc.env_tokens(all_markers(case, U), alphabet, xorder)
+    toks.append(str(len(stack)))
+    for layer in stack:
+        toks.append("1" if layer["allow_pre"] else "0")
+        toks += universe_tokens(layer["universe"], C, U)
     toks.append(str(len(case["inputs"])))
     for (name, reqs) in case["inputs"]:
         toks += container_tokens(C, U, name, reqs)
@@ -216,9 +224,11 @@ def case_line(case: Dict[str, Any], alphabet, xorder, C, U) -> str:
         for (name, reqs) in case["constraints"]:
             toks += container_tokens(C, U, name, reqs)
     toks.append("1" if case["remove_constraints"] else "0")
-    if not stack:
-        toks.append("1" if case["allow_pre"] else "0")
     toks += ["N"] if case["max_downgrade"] is None else ["S", str(case["max_downgrade"])]
+    ob = case.get("only_binary")          # None | ":all:" | [project names]
+    toks.append("1" if ob == ":all:" else "0")
+    names = [] if ob in (None, ":all:") else [U.normalize_project_name(x) for x in ob]
+    toks += [str(len(names))] + [hx(x) for x in names]
     return " ".join(toks)
 
 
@@ -252,9 +262,11 @@ def run_impl(case: Dict[str, Any], M, keep: bool = False, clear_caches: bool = T
     D.DistributionCollection.remove_dists = counting_remove
     try:
       with contextlib.redirect_stderr(buf):
+        ob = case.get("only_binary")
+        only_binary = None if ob is None else (CP.AllOnlyBinarySet() if ob == ":all:" else {U.normalize_project_name(x) for x in ob})
         results, roots = CP.perform_compile(inputs, repo, constraint_reqs=cons,
                                             remove_constraints=case["remove_constraints"],
-                                            max_downgrade=case["max_downgrade"])
+                                            max_downgrade=case["max_downgrade"], only_binary=only_binary)
         out = {"kind": "OK", "graph": graphenc.obs_graph(results, with_bc=False), "roots": sorted(r.key for r in roots)}
         emitted = [n for n in results.visit_nodes(roots) if n.metadata is not None and not n.metadata.meta]
         out["emitted"] = sorted(n.key for n in emitted)
